@@ -79,7 +79,9 @@ func H_Partial() {
 	ra := vp.Param("req_absent", 0)
 	follow := vp.Param("follow", 1)
 	present, absent := keysFor(shape, nk)
-	mode := vp.Choose("mode", 3) // 0 in memory, 1 committed at level 0 and reloaded, 2 committed at level 1 (kept)
+	// 0 in memory, 1 committed at level 0 and reloaded, 2 committed at level 1 (kept),
+	// 3/4 committed at level 64 and viewed through CopyRoot(1) / CopyRoot(2)
+	mode := vp.Choose("mode", vp.Param("modes", 5))
 	db := wmptlib.NewMemStore()
 	src := wmpt.New(nil, db)
 	vals := map[string][]byte{}
@@ -102,12 +104,18 @@ func H_Partial() {
 		if mode == 2 {
 			lvl = 1
 		}
+		if mode >= 3 {
+			lvl = 64
+		}
 		b, err := src.Commit(lvl)
 		if err != nil || b.Commit(false) != nil {
 			panic("commit failed")
 		}
 		if mode == 1 {
 			src = wmpt.New(wmpt.NewHashNode(append([]byte{}, src.Root()...), src.Weight()), db)
+		}
+		if mode >= 3 {
+			src = wmpt.New(src.CopyRoot(mode-2), db)
 		}
 	}
 	var req [][]byte
